@@ -19,17 +19,36 @@
   * `covered_within_one_pixel`: every covered point is inside the closed triangle or at Euclidean
     distance <= 1 (in fact <= 1/2) from an edge segment;
   * `shared_edge_same_pixels` / `shared_edge_pixels_in_both`: both triangles rasterise a shared edge
-    as the same `Line` between the `(y, x)`-sorted end points, and all its pixels are in both point
-    lists; `mesh_gap_free`: no lattice point of the quadrilateral's interior is missed;
+    as the same `Line` between the `(y, x)`-sorted end points (all triples), and all its pixels are
+    in both point lists (`shared_edge_pixels_in_both`: triangles of NON-ZERO area only - a zero-area
+    triangle is rasterised as the single line between its `(y, x)`-extreme vertices, and that a
+    colinear sub-segment's Bresenham pixels lie on it is not proved, see the [V] line below);
+    `mesh_gap_free`: no lattice point of the quadrilateral's interior is missed;
   * `triangle_translate`, `triangle_contains_translate` (exported for C07).
 
   * `outline_is_edge_lines`: the pixels of the one-pixel outline are exactly the pixels of the three
     edge lines (as the code orients them: cyclically for a triangle given clockwise, in the reverse
     cycle for a counter-clockwise one; Bresenham ties round differently in the two directions).
 
-  Every sub-claim of the triangle part is a theorem about the model. What is NOT proved is one
-  modelling step of the outline path, tied by the `tri.outline` correspondence stream only:
-  -- [V] for stroke width 1 `LineJoin::from_points` / `ThickSegment::intersection` reduce to the Bresenham intersection with the skeleton line `Line(v[i+1], v[i+2])` (model parameter `skeletonSeg`, EG/Model/Triangle.lean; the join / thick-segment code is not modelled): carried by correspondence + oracle only
+  Every sub-claim of the triangle part is a theorem about the model. The modelling step of the
+  outline path - for stroke width 1 and centre alignment `LineJoin::from_points` /
+  `ThickSegment::intersection` reduce to the Bresenham intersection with the skeleton line
+  `Line(v[i+1], v[i+2])`, the parameter `skeletonSeg` of EG/Model/Triangle.lean - is proved on the
+  join model: `EG.C19.Joins.skeleton_seg_is_join_code` (Props/C19/Joins.lean). Not proved: the
+  same for Inside / Outside alignment (the [V] line of Props/C19/Joins.lean).
+  -- [V] "same pixels along a shared edge" when one of the two triangles has zero area (colinear or coincident vertices; true for every such ordered triple of the 7x7 grid by brute force on the model): carried by correspondence + oracle only
+
+  Arithmetic: the model computes in unbounded integers, "ALL vertex triples" above means all triples
+  of the MODEL. In Rust `Triangle::area_doubled` and the `s`, `t`, `s + t` of `Triangle::contains`
+  are plain `i32` expressions (mod.rs): they wrap (release) or panic (overflow checks) once a product
+  or partial sum leaves `i32`, e.g. Triangle((0,0),(65536,0),(0,65536)): `p2.x * p3.y = 2^32` wraps to
+  0, `scanline_intersection` takes the colinear arm and `points()` is one line
+  (`area_doubled_product_exceeds_i32`). The theorems describe the real code where these expressions
+  do not overflow: every coordinate within +-8192 suffices (`area_doubled_fits_i32`,
+  `contains_products_fit_i32`, Props/C19/Arithmetic.lean: every product and partial sum in
+  evaluation order is in `i32`); the display scale of C08 (+-1024) lies inside. C08 itself has no
+  checked model of the triangle code (its [V] line "no panic in code that has no checked model");
+  its oracle runs display-scale triangles with overflow checks enabled.
 -/
 import EG.Lemmas.TrianglePoints
 import EG.Lemmas.TriangleTranslate
